@@ -385,6 +385,15 @@ theorem C01_kruskal_tenmat_khatrirao [CommSemiring α] (K : Ktensor α) (hK : K.
             Rm.get (sub2ind (gather K.shape c) (gather i c)) q)).sum :=
   kruskal_tenmat_khatrirao K hK r c hr hc hp i hi
 
+/-- The executable Khatri-Rao form (`Ktensor.krTenmat`, what the driver computes as the third
+witness) IS the matrix of `K.to_tenmat(r, c)`, for every ordered partition with both sides
+non-empty and positive extents. -/
+theorem C01_kruskal_tenmat_khatrirao_matrix [CommSemiring α] (K : Ktensor α) (hK : K.WF) (r c : List Nat)
+    (hr : r ≠ []) (hc : c ≠ []) (hp : isPermOf (r ++ c) K.factors.length = true)
+    (hpos : ∀ e ∈ K.shape, 0 < e) :
+    ∃ M, K.toTenmat (some r) (some c) none = .ok M ∧ K.krTenmat r c = .ok M.data :=
+  kruskal_krTenmat K hK r c hr hc hp hpos
+
 /-! ### chains of conversions -/
 
 /-- **Any finite chain of conversions** (`full`, `to_tensor`, `to_sptensor`, `to_tenmat(…)`,
@@ -406,6 +415,24 @@ theorem C01_chain_accepts [CommSemiring α] [DecidableEq α] (cs : List Conv) (h
       ∀ i, InBounds h.shape i → h'.get i = h.get i := by
   obtain ⟨h', he⟩ := chain_ok cs h hw hv
   exact ⟨h', he, chain_sound cs h h' hw he⟩
+
+/-- `double()` of ANY well-formed holder (in particular of the end of any accepted chain) is
+accepted and yields a well-formed array of the tensor shape (matrix shape for the matricized
+classes) that holds, at the cell of every subscript `i` (`Holder.cell`: `i` itself, or
+(row, column) for the matricized classes), the entry the holder denotes. -/
+theorem C01_double_holder [CommSemiring α] [DecidableEq α] (h : Holder α) (hw : h.WF) :
+    ∃ D, h.double = .ok D ∧ D.shape = h.dshape ∧ D.WF ∧
+      ∀ i, InBounds h.shape i → D.get (h.cell i) = h.get i := holder_double h hw
+
+/-- chain, then `double()`: the array at the end of any accepted chain holds the entries of the
+array the chain started from. -/
+theorem C01_chain_double [CommSemiring α] [DecidableEq α] (cs : List Conv) (h h' : Holder α) (hw : h.WF)
+    (he : runChain cs h = .ok h') :
+    ∃ D, h'.double = .ok D ∧ D.shape = h'.dshape ∧ D.WF ∧
+      ∀ i, InBounds h.shape i → D.get (h'.cell i) = h.get i := by
+  obtain ⟨hs, hw', hg⟩ := chain_sound cs h h' hw he
+  obtain ⟨D, hD, hsD, hWD, hgD⟩ := holder_double h' hw'
+  exact ⟨D, hD, hsD, hWD, fun i hi => by rw [hgD i (hs ▸ hi), hg i hi]⟩
 
 /-- a method the class does not have ends the chain. -/
 theorem C01_chain_rejects_missing_method :
